@@ -144,6 +144,8 @@ class BufSeq:
         self.starts = z3.Store(self.starts, n, zint(v.start))
         self.lens = z3.Store(self.lens, n, zint(v.length))
         # append keeps earlier prefix sums (axiom instance at k = n) and extends by one
+        k = z3.Int('k!app')
+        self.run.assume(z3.ForAll([k], z3.Implies(z3.And(k >= 0, k <= n), PS(self.lens, k) == PS(old_lens, k))))
         self.run.assume(PS(self.lens, n) == PS(old_lens, n))
         self.run.assume(PS(self.lens, n + 1) == PS(old_lens, n) + zint(v.length))
         self.n = simp(n + 1)
